@@ -54,7 +54,7 @@ def gen_cases(tier: str, seed: int) -> List[Dict[str, Any]]:
                 for calls in ([2] if tier == "quick" else [1, 2, 3]):
                     rng = rng_for(seed, PROPERTY, "prof", i)
                     cases.append({"chain": chain, "fmt": fmt, "calls": calls, "seed": derive_seed(seed, PROPERTY, "m", mi) % (2**31),
-                                  "family": ["mlp", "residual", "attention", "mixed"][mi % 4],
+                                  "family": ["mlp", "residual", "attention", "mixed", "uu"][mi % 5],
                                   # histories in which every intermediate module is itself USED (forward+backward) before the next
                                   # transform is applied to it
                                   "call_intermediates": len(chain) >= 2 and rng.random() < 0.5})
@@ -69,6 +69,10 @@ def family_profile(family: str) -> Dict[str, Any]:
         return {"dtype": "float32", "max_ops": 5, "residual": 2, "forms": []}
     if family == "attention":
         return {"dtype": "float32", "max_ops": 4, "residual": 1, "forms": [], "quant_focus": True}
+    if family == "uu":
+        # modules built from unit-scaled layers (uu.Linear / U.linear): judged on everything except equality with the
+        # recipe reference when unit_scale is in the chain (unit_scale on already unit-scaled ops is outside C16's statement)
+        return {"dtype": "float32", "max_ops": 4, "residual": 1, "forms": ["uu"], "quant_focus": True}
     return {"dtype": "float32", "max_ops": 8, "residual": 2, "forms": ["embedding", "bias_kw"]}
 
 
@@ -257,12 +261,14 @@ def run_case(case: Dict[str, Any], ctx) -> None:
                                   f"({n_lin} linear, {n_att} attention ops)", source=src)
                     break
         # ---- reference -------------------------------------------------------------------------------------------
-        if "compile" not in chain:
+        if "compile" not in chain and not (case["family"] == "uu" and "us" in chain):
             params = {k: v for k, v in result.named_parameters()}
             pref = {k: v.detach().clone().requires_grad_(True) for k, v in params.items()}
             ins_r = [t.detach().clone().requires_grad_(True) if t.is_floating_point() else t.clone() for t in inputs]
             with pinned_randint(shape_keyed_randint):
-                outs_r, _ = progs.interpret(prog, pref, ins_r, "recipe" if "us" in chain else "plain", quant=progs.Quant(fwd, bwd) if "sim" in chain else None)
+                mod_attrs = {md["name"]: {"constraint": "to_output_scale"} for md in prog["mods"] if md["type"] == "uu.Linear"}
+                outs_r, _ = progs.interpret(prog, pref, ins_r, "recipe" if "us" in chain else "plain", quant=progs.Quant(fwd, bwd) if "sim" in chain else None,
+                                            mod_attrs=mod_attrs)
                 leaves_r = [t for t in ins_r if t.is_floating_point()] + [pref[k] for k in sorted(params)]
                 gr = torch.autograd.grad(outs_r, leaves_r, runs[0]["ups"], allow_unused=True)
             ctx.count("reference:compared")
